@@ -164,9 +164,13 @@ theorem bpGo_ok_quiet (path : Path) (size : Nat) : ∀ (todo done : List SC) (s 
     intro done s s' h
     unfold bpGo at h
     split at h
-    · cases hc : consume (c.max.getD 0 - c.already) { s with scs := done ++ rest } with
-      | error e => simp [hc, R.bind] at h
-      | ok as => simp [hc, R.bind] at h
+    · exfalso
+      revert h
+      simp only []
+      generalize consume _ _ = r
+      cases r with
+      | error e => simp [R.bind]
+      | ok a => simp [R.bind]
     · exact ih _ _ _ h
 
 /-- `process_primitive` in strict mode -/
@@ -323,7 +327,9 @@ theorem decode_acct : (t : Ty) → ∀ (path : Path) (sel : Option Int) (s : St)
     simp only [decode]
     apply Acct.of_emit (.marshal ⟨path, .named name false, none, "", 0⟩) rfl
     split
-    · exact acct_crash _ _ _
+    · split
+      · exact acct_error _ _
+      · exact acct_crash _ _ _
     · exact arm_acct arms name _ path _
   | .bad r, path, sel, s => by simp only [decode]; exact acct_crash s _ _
 
@@ -442,81 +448,22 @@ theorem decodeCommand_acct (tb : MsgTables) (path : Path) (s0 : St) : Acct s0 (d
               · exact tail _ _ _
         · exact tail _ _ _
 
+/-- one step of the routine accounting argument for the message walkers -/
+macro "acct_step" : tactic => `(tactic| first
+  | exact acct_ok _ _ | exact acct_crash _ _ _ | exact acct_error _ _
+  | exact readPrim_acct _ _ _ | exact decodeArea_acct _ _ _ _ _ | exact decodeSized_acct _ _ _ _
+  | exact assertDone_acct _ _ | exact openRegion_acct _ _ _ _ | exact setListed_acct _ _ _ _
+  | (refine msgCatch_acct _ _ _ _ _ ?_ (fun _ _ _ => ?_))
+  | (refine Acct.bind ?_ (fun _ _ _ => ?_))
+  | split)
+
 theorem decodeResponse_acct (tb : MsgTables) (cc : Option Int) (encFlag : Bool) (path : Path) (s0 : St) :
     Acct s0 (decodeResponse true tb cc encFlag path s0) := by
   unfold decodeResponse
   simp only []
   apply Acct.of_scs [⟨s0.pos, [], 0, none⟩]
   apply Acct.of_emit (.marshal ⟨path, .named "Response" false, none, "", 0⟩) rfl
-  refine msgCatch_acct _ _ _ _ _ (readPrim_acct _ _ _) fun tag s1 _ => ?_
-  refine msgCatch_acct _ _ _ _ _ (readPrim_acct _ _ _) fun rsz s2 _ => ?_
-  split
-  · exact acct_crash _ _ _
-  · split
-    · exact acct_crash _ _ _
-    · refine (setListed_acct _ _ _ _).bind fun _ s3 _ => ?_
-      refine msgCatch_acct _ _ _ _ _ (readPrim_acct _ _ _) fun rcv s4 _ => ?_
-      have finish : ∀ (vals : List (String × Val)) (s : St),
-          Acct s ((assertDone true s0.pos s).bind fun _ s =>
-            if s.scs.isEmpty then (.ok (.obj "Response" false vals, s) : R Val)
-            else crash "AssertionError" "size_constraints.assert_done()" s) := by
-        intro vals s
-        refine (assertDone_acct _ s).bind fun _ s' _ => ?_
-        split
-        · exact acct_ok _ _
-        · exact acct_crash _ _ _
-      split
-      · exact finish _ _
-      · split
-        · exact acct_crash _ _ _
-        · refine msgCatch_acct _ _ _ _ _ (decodeArea_acct _ _ _ _ _) fun hv s5 _ => ?_
-          have tail : ∀ (vals : List (String × Val)) (s : St),
-              Acct s (match cc.bind (lookupTy tb.rspParams) with
-                | none => (crash "NameError" "process_response: selector_name" s : R Val)
-                | some pty =>
-                  msgCatch true s0.pos (s0.pos + 1) "Response" vals
-                    (decodeArea true tb encFlag pty (path ++ [⟨"parameters", none⟩]) s) fun pv s =>
-                    let vals := vals ++ [("parameters", pv)]
-                    if !(vInt tag == some tb.sessionsTag) then
-                      (assertDone true s0.pos s).bind fun _ s =>
-                        if s.scs.isEmpty then .ok (.obj "Response" false vals, s)
-                        else crash "AssertionError" "size_constraints.assert_done()" s
-                    else
-                    (assertDone true (s0.pos + 1) s).bind fun _ s =>
-                    msgCatch true s0.pos (s0.pos + 1) "Response" vals
-                      (decodeSized true tb.authRsp (path ++ [⟨"authorizationArea", none⟩]) s0.pos s) fun area s =>
-                    match areaFlag tb.authRsp "encrypt" area with
-                    | .error cls => crash cls "is_parameter_encryption" s
-                    | .ok expected =>
-                    if expected != encFlag then crash "AssertionError" "process_response: parameter_encryption mismatch" s else
-                    let vals := vals ++ [("authorizationArea", area)]
-                    if s.scs.isEmpty then .ok (.obj "Response" false vals, s)
-                    else crash "AssertionError" "size_constraints.assert_done()" s) := by
-            intro vals s
-            split
-            · exact acct_crash _ _ _
-            · refine msgCatch_acct _ _ _ _ _ (decodeArea_acct _ _ _ _ _) fun pv s6 _ => ?_
-              simp only []
-              split
-              · exact finish _ _
-              · refine (assertDone_acct _ s6).bind fun _ s7 _ => ?_
-                refine msgCatch_acct _ _ _ _ _ (decodeSized_acct _ _ _ _) fun area s8 _ => ?_
-                split
-                · exact acct_crash _ _ _
-                · split
-                  · exact acct_crash _ _ _
-                  · split
-                    · exact acct_ok _ _
-                    · exact acct_crash _ _ _
-          split
-          · refine msgCatch_acct _ _ _ _ _ (readPrim_acct _ _ _) fun psz s6 _ => ?_
-            split
-            · exact acct_crash _ _ _
-            · split
-              · exact acct_crash _ _ _
-              · refine (openRegion_acct _ _ _ _).bind fun _ s7 _ => ?_
-                exact tail _ _
-          · exact tail _ _
+  repeat' acct_step
 
 theorem decodeStream_acct (tb : MsgTables) (path : Path) : ∀ (fuel : Nat) (s : St),
     Acct s (decodeStream true tb path fuel s) := by
